@@ -14,7 +14,7 @@ use crate::operator::{
     IntoOpResult, OpError, OpRunContext, Operator, OutputList, OutputType, OutputTypeList,
     OutputTypesContext, check_eq, static_dims,
 };
-use crate::ops::Padding;
+use crate::ops::{Padding, conv_attrs_or_defaults};
 
 /// Compute the range of input positions along a spatial axis that result in
 /// valid output positions for a col2im operation.
@@ -234,6 +234,10 @@ pub fn conv_transpose(
     dilations: &[usize],
     output_padding: Option<&[usize]>,
 ) -> Result<Tensor, OpError> {
+    let (strides, dilations, padding) =
+        conv_attrs_or_defaults(kernel.ndim().saturating_sub(2), strides, dilations, padding);
+    let (strides, dilations) = (strides.as_slice(), dilations.as_slice());
+
     // Handle 1D transposed convolution by expanding to 2D and then removing
     // the extra dimension from the result.
     if let &[n, c, w] = input.shape() {
